@@ -56,6 +56,7 @@ func gen(g *mon.Gen) {
 					dense := g.Thorough() || client != clientx.Serial
 					g.Emit(&Case{Client: client, FC: fc, Size: size, Exc: exc, Mode: "single", Seed: rng.Int63(), Dense: dense})
 					g.Emit(&Case{Client: client, FC: fc, Size: size, Exc: exc, Mode: "bytewise", Seed: rng.Int63()})
+					g.Emit(&Case{Client: client, FC: fc, Size: size, Exc: exc, Mode: "flavours", Seed: rng.Int63()})
 					if client != clientx.Serial || g.Thorough() {
 						g.Emit(&Case{Client: client, FC: fc, Size: size, Exc: exc, Mode: "pairs", Seed: rng.Int63()})
 					}
@@ -311,6 +312,28 @@ func run(ci any, r *mon.Rec) {
 		// leading timed-out reads before the first byte
 		steps := append([]xport.ReadStep{{Err: "deadline"}, {Err: "deadline"}, {Err: "deadline"}}, xport.Cuts(L, nil, 0)...)
 		j.schedule(steps, 4)
+	case "flavours":
+		// the same reply, the read results spelled the other ways the io.Reader contract and real transports allow:
+		// the final bytes together with io.EOF in one Read; an empty timed-out read reported through a wrapping error
+		// (*fs.PathError around the deadline sentinel); for the serial client also EOF (wrapped or bare, alone or together
+		// with bytes) in the middle of the reply - a serial port reports its read timeout that way
+		var ks []int
+		for _, k := range []int{1, 2, 3, L / 2, E - 1, L - 2, L - 1} {
+			if k >= 1 && k < L {
+				ks = append(ks, k)
+			}
+		}
+		for _, k := range ks {
+			j.schedule([]xport.ReadStep{{N: k}, {N: L - k, Err: "eof"}}, mon.Mix(80, uint64(k)))
+			j.schedule([]xport.ReadStep{{N: k}, {Err: "deadline-wrapped"}, {N: L - k}}, mon.Mix(81, uint64(k)))
+			j.schedule([]xport.ReadStep{{Err: "deadline-wrapped"}, {N: k}, {Err: "deadline-wrapped"}, {Err: "deadline"}, {N: L - k}}, mon.Mix(82, uint64(k)))
+			if c.Client == clientx.Serial {
+				j.schedule([]xport.ReadStep{{N: k}, {Err: "eof-wrapped"}, {N: L - k}}, mon.Mix(83, uint64(k)))
+				j.schedule([]xport.ReadStep{{N: k, Err: "eof"}, {N: L - k}}, mon.Mix(84, uint64(k)))
+				j.schedule([]xport.ReadStep{{N: k, Err: "deadline-wrapped"}, {N: L - k, Err: "eof-wrapped"}}, mon.Mix(85, uint64(k)))
+			}
+		}
+		j.schedule([]xport.ReadStep{{N: L, Err: "eof"}}, 86)
 	case "pairs":
 		if L > 16 {
 			for i := 0; i < 40; i++ {
